@@ -617,8 +617,10 @@ impl FdlActiveStation {
         let pending_bytes = phy.poll_pending_received_bytes(now);
         if pending_bytes > self.pending_bytes {
             self.mark_bus_activity(now);
-            self.pending_bytes = pending_bytes;
         }
+        // Also track a shrinking buffer (e.g. after undecodable data was discarded), otherwise
+        // later activity of fewer bytes would go unnoticed.
+        self.pending_bytes = pending_bytes;
     }
 
     /// Mark receival of a telegram.
